@@ -306,7 +306,16 @@ def pipeline(job, trace_props=None, tag=""):
         info["stages"]["cbmc"] = round(dt, 2)
         info["checker_cmd"] = " ".join(cmd).replace(WORK + "/", "work/")
         if rc is None:
-            raise Undecided("cbmc " + text)
+            partial = None
+            if not trace_props and "SATISFIABLE" in open(out_txt, errors="replace").read().replace("UNSATISFIABLE", ""):
+                # the solver had already found a counterexample for some obligation and then stalled on the others:
+                # ask for that one (--stop-on-fail); everything else of the job stays undecided
+                partial = stop_on_fail(job, cmd, wd, log)
+            if partial is None:
+                raise Undecided("cbmc " + text)
+            info["partial_after_timeout"] = "cbmc " + text
+            info["wall"] = round(time.time() - t0, 2)
+            return [partial], info
         obls = []
         if trace_props:
             try:
@@ -345,6 +354,48 @@ def pipeline(job, trace_props=None, tag=""):
         return obls, info
     finally:
         log.close()
+
+
+def stop_on_fail(job, cmd, wd, log):
+    """after a timeout of the all-obligations run: one failed obligation (not the canary, not a benign-listed or known
+    one) with its real property name, or None"""
+    base = [c for c in cmd if c not in ("--json-ui", "--trace")]
+    rc, text, dt = run(base + ["--show-properties", "--json-ui"], 120, mem_gb=job.mem_gb)
+    props = {}
+    try:
+        for el in json.loads(text[text.index("["):]):
+            for pr in (el.get("properties", []) if isinstance(el, dict) else []):
+                sl = pr.get("sourceLocation", {})
+                props[pr.get("name")] = (sl.get("function") or "", str(sl.get("line")), pr.get("description") or "", sl.get("file"))
+    except Exception:
+        return None
+    skip = [rx for (_, rx, _) in parse_benign()] + [rx for (_, rx, _) in parse_known()]
+    sel = []
+    for name, (fn, line, desc, file_) in props.items():
+        key = "%s:%s: %s" % (job.name, fn, desc)
+        if CANARY in desc or any(rx.search(key) for rx in skip) or (fn.startswith("h_") and fn != job.harness):
+            continue
+        sel.append(name)
+    if not sel:
+        return None
+    sof = os.path.join(wd, "stop_on_fail.txt")
+    c2 = base + ["--stop-on-fail"]
+    for n in sel:
+        c2 += ["--property", n]
+    rc, text, dt = run(c2, min(job.timeout, 300), mem_gb=job.mem_gb, stdout_path=sof)
+    log.write("$ %s ... --stop-on-fail (%d properties)\nrc=%s %.1fs\n" % (" ".join(base), len(sel), rc, dt))
+    if rc is None:
+        return None
+    body = open(sof, errors="replace").read()
+    m = re.search(r"^Violated property:\n  file (\S+) function (\S+) line (\d+) thread \d+\n  (.*)\n", body, re.M)
+    if not m:
+        return None
+    file_, fn, line, desc = m.group(1), m.group(2), m.group(3), m.group(4)
+    prop = None
+    for name in sel:
+        if props[name][:3] == (fn, line, desc):
+            prop = name
+    return Obligation(job.name, prop or ("%s.line%s" % (fn, line)), desc, "FAILURE", fn, line, file_)
 
 
 # ---------------------------------------------------------------- classification
@@ -431,6 +482,15 @@ def run_unit(pid, jobs, tier, seed=0, only=None):
         res.infos.append(info)
         canaries = [o for o in obls if CANARY in o.desc]
         rest = [o for o in obls if CANARY not in o.desc]
+        if info.get("partial_after_timeout"):
+            # one counterexample recovered after a timeout; nothing else of the job is decided
+            for o in rest:
+                if o.status == "FAILURE" and not any(p_ in ("*", pid) and rx.search(o.key()) for (p_, rx, r_) in benign) \
+                        and not any(p_ == pid and rx.search(o.key()) for (p_, rx, t_) in known):
+                    res.obls.append(o)
+                    res.violations.append(o)
+            res.undecided.append((job.name, info["partial_after_timeout"] + " (one failed obligation recovered with --stop-on-fail)"))
+            continue
         if not job.no_canary:
             if not canaries:
                 res.undecided.append((job.name, "vacuity: no canary obligation generated"))
